@@ -15,15 +15,19 @@ CPP_RUNTIME_NAMES = frozenset(
 )
 
 
-def check_cpp_names(nodes):
+def check_cpp_names(nodes, _included=None):
     """
     Names the generated C++ resolves in its own scopes first: a schema name equal to one of them compiles and then means
     something else (another array extent in encode, another field type, another enumerator in print). A member named like a
     type of its own struct (or like the struct) changes the meaning of that name in the C++ class scope.
+    Each included file is walked once.
     """
+    _included = set() if _included is None else _included
     for node in nodes:
         if isinstance(node, model.Include):
-            check_cpp_names(node.members)
+            if node.name not in _included:
+                _included.add(node.name)
+                check_cpp_names(node.members, _included)
             continue
         names = [node.name]
         if isinstance(node, model.Enum):
